@@ -349,9 +349,10 @@ func retErrKind(ret *ssa.Return) string {
 				}
 			}
 			if lastStore != nil {
-				return valueErrKind(lastStore.Val)
+				last = lastStore.Val
+			} else {
+				return "maybe"
 			}
-			return "maybe"
 		}
 	}
 	k := valueErrKind(last)
